@@ -91,14 +91,18 @@ enum Route {
     ThreadLocalHeld,
     /// `Timestamp::default()` / `TimestampOnClose::default()`, override removed before the clock moves
     ThreadLocalDropped,
+    /// like ThreadLocalHeld, but an inner override with another clock begins and ends before
+    /// anything is created (the outer one must be in force again)
+    ThreadLocalNested,
 }
-const ROUTES: [Route; 3] = [Route::Explicit, Route::ThreadLocalHeld, Route::ThreadLocalDropped];
+const ROUTES: [Route; 4] = [Route::Explicit, Route::ThreadLocalHeld, Route::ThreadLocalDropped, Route::ThreadLocalNested];
 impl Route {
     fn name(self) -> &'static str {
         match self {
             Route::Explicit => "explicit:new_from_time_source",
             Route::ThreadLocalHeld => "thread-local-held:now",
             Route::ThreadLocalDropped => "thread-local-dropped:default",
+            Route::ThreadLocalNested => "thread-local-outer-after-inner-override-ended:now",
         }
     }
 }
@@ -143,11 +147,16 @@ fn scenario(t_create: i64, t_close: i64, adv_s: u64, route: Route) -> Observed {
     let ts = TimeSource::custom(clock.clone());
     let mut calls = 0u64;
     let mut guard = Some(set_time_source(ts.clone()));
+    if route == Route::ThreadLocalNested {
+        let decoy = ManuallyAdvancedTimeSource::at_time(sys(77_000_000_000_000_000));
+        let inner = set_time_source(TimeSource::custom(decoy));
+        drop(inner);
+    }
     let mut stamp = || {
         calls += 1;
         match route {
             Route::Explicit => Timestamp::new_from_time_source(ts.clone()),
-            Route::ThreadLocalHeld => Timestamp::now(),
+            Route::ThreadLocalHeld | Route::ThreadLocalNested => Timestamp::now(),
             Route::ThreadLocalDropped => Timestamp::default(),
         }
     };
@@ -166,7 +175,7 @@ fn scenario(t_create: i64, t_close: i64, adv_s: u64, route: Route) -> Observed {
     let by_val = stamp();
     let on_close = TimestampOnClose::default();
     calls += 5;
-    if route != Route::ThreadLocalHeld {
+    if route != Route::ThreadLocalHeld && route != Route::ThreadLocalNested {
         guard = None;
     }
     // the wall clock jumps to the close time; the monotonic clock moves independently
